@@ -69,11 +69,17 @@ func c30(c *engine.Ctx) {
 		a.Run("fresh-write", "fresh-arg", "slot-fresh", "no-inplace-bytes")
 		c.Floor("fresh-write", a.NWrites, 25)
 		c.Floor("fresh-arg", a.NArgs, 6)
+		// derived set: private helpers that forward their parameter to a mutator are mutators too
 		got := a.ContractNames()
-		want := []string{P + "(*Node).calcHeightAndSize"}
-		missing, extra := tgSetEq(got, want)
-		c.Check("contract-set", "tm2/pkg/iavl mutators requiring a fresh node", token.NoPos, len(missing) == 0 && len(extra) == 0,
-			"functions that write through a parameter: "+join(got)+"; unexpected: "+join(extra)+"; no longer mutating: "+join(missing))
+		extra := a.ExportedContracts()
+		has := false
+		for _, g := range got {
+			if g == P+"(*Node).calcHeightAndSize" {
+				has = true
+			}
+		}
+		c.Check("contract-set", "tm2/pkg/iavl mutators requiring a fresh node", token.NoPos, len(extra) == 0 && has,
+			"functions that write through a parameter (derived): "+join(got)+"; exported ones (none allowed): "+join(extra))
 		for _, name := range got {
 			callers, nonCalls := tgCallersOf(p, name)
 			var outside []string
@@ -93,8 +99,7 @@ func c30(c *engine.Ctx) {
 		return
 	}
 	{
-		writers := engine.WriterSet(p.FieldWrites(hashF), func(w engine.Write) bool { return w.Kind != "lit" })
-		c.Check("hash-memo", "writers of Node.hash", token.NoPos, len(engine.SetDiff(writers, []string{P + "(*Node)._hash", P + "(*Node).hashWithCount", P + "MakeNode"})) == 0 && len(writers) >= 2, "writers: "+join(writers))
+		tgTableWriters(c, p, "hash-memo", "writers of Node.hash", p.FieldWrites(hashF), func(w engine.Write) bool { return w.Kind != "lit" }, []string{P + "(*Node)._hash", P + "(*Node).hashWithCount", P + "MakeNode"})
 	}
 
 	// ---- (3) root publication
@@ -106,9 +111,7 @@ func c30(c *engine.Ctx) {
 		return
 	}
 	{
-		ws := engine.WriterSet(p.FieldWrites(rootF), func(w engine.Write) bool { return w.Kind != "lit" && w.Direct })
-		want := []string{T + "set", T + "Remove", T + "SaveVersion", T + "LoadVersion", T + "LoadVersionForOverwriting", P + "(*Importer).Commit"}
-		c.Check("root-writers", P+"ImmutableTree.root", token.NoPos, len(engine.SetDiff(ws, want)) == 0, "writers: "+join(ws))
+		tgTableWriters(c, p, "root-writers", P+"ImmutableTree.root", p.FieldWrites(rootF), func(w engine.Write) bool { return w.Kind != "lit" && w.Direct }, []string{T + "set", T + "Remove", T + "SaveVersion", T + "LoadVersion", T + "LoadVersionForOverwriting", P + "(*Importer).Commit"})
 	}
 	if f := c.MustFunc(T + "Remove"); f != nil {
 		g := f.Graph()
